@@ -456,7 +456,8 @@ class Eval:
                                 self.ties.append(("correspondence C05/order: model predicts 'Macro not found', the compiler says something else",
                                                   {"file": f, "impl": [res.get("error"), res.get("msg")], "model": comp}))
                         elif m or res.get("error") == "ValueError" and comp.get("err") == "ValueError":
-                            if m:
+                            # (a call written in a ROUTINE of the file raises the same message; only calls in macro bodies are the model's)
+                            if m and any(m.group(1) in d[1] for d in G.abstract_input(self.case["files"][f], [])["defs"]):
                                 self.ties.append(("correspondence C05/order: the compiler says 'Macro not found', the model does not", {"file": f, "impl": res.get("msg"), "model": comp}))
                     elif "raised" not in e and "ok" not in comp:
                         self.ties.append(("correspondence C05/order: the model predicts a failure for a file that compiled", {"file": f, "model": comp}))
